@@ -169,3 +169,114 @@ theorem writeAt_resetChain_fresh :
         exact ⟨by simp, freshItems_setKv ih items hf.2⟩
 
 end Pg.C09
+
+namespace Pg.C09
+open T
+open Pg.C08 (Atom Key)
+
+theorem freshItems_iff : (items : List (Key × T)) → (FreshItems items ↔ ∀ x ∈ items, Fresh x.2)
+  | [] => by simp [FreshItems]
+  | (k, t) :: rest => by simp [FreshItems, freshItems_iff rest]
+
+theorem resetCache_fresh {t : T} (h : Fresh t) : Fresh (resetCache t) := by
+  cases t with
+  | leaf a => exact h
+  | node m kd items => simp only [Fresh] at h; simp [resetCache, Fresh, h.2]
+
+theorem resetChain_fresh : (p : Path) → (t : T) → Fresh t → Fresh (resetChain t p)
+  | [], t, h => by simpa [resetChain] using resetCache_fresh h
+  | k :: rest, .leaf a, h => by simp [resetChain, child, resetCache, Fresh]
+  | k :: rest, .node m kd items, h => by
+    simp only [resetChain, child]
+    cases hc : lookup k items with
+    | none => simpa using resetCache_fresh h
+    | some c =>
+      simp only [Fresh] at h
+      have ih := resetChain_fresh rest c (freshItems_lookup items h.2 hc)
+      simp only [resetCache, setChild, Fresh]
+      exact ⟨by simp, freshItems_setKv ih items h.2⟩
+
+theorem resetAll_fresh : (ups : List (Update × Path)) → (t : T) → Fresh t → Fresh (resetAll t ups)
+  | [], t, h => h
+  | (_, tp) :: rest, t, h => resetAll_fresh rest _ (resetChain_fresh tp t h)
+
+theorem writeReset_fresh {root r' : T} {p : Path} {k : Key} {v : Option T} {u : Option Update}
+    (hf : Fresh root) (hv : ∀ nv, v = some nv → Fresh nv) (h : writeReset root p k v = some (r', u)) :
+    Fresh r' := by
+  unfold writeReset at h
+  cases hw : writeAt root [] p k v with
+  | none => simp [hw] at h
+  | some r =>
+    obtain ⟨r1, u1⟩ := r
+    cases u1 with
+    | none =>
+      simp [hw] at h
+      rw [← h.1, writeAt_none_unchanged p root [] k v r1 hw]; exact hf
+    | some u1 =>
+      simp [hw] at h
+      rw [← h.1]
+      exact writeAt_resetChain_fresh p root [] k v r1 (some u1) hf hv hw
+
+theorem writeAll_fresh (recv : Path) :
+    (pairs : List (Path × T)) → (root : T) → (acc : List (Update × Path)) → (r' : T) →
+      (ups : List (Update × Path)) → Fresh root → (∀ pv ∈ pairs, Fresh pv.2) →
+      writeAll root recv pairs acc = some (r', ups) → Fresh r'
+  | [], root, acc, r', ups, hf, _, h => by simp [writeAll] at h; rw [← h.1]; exact hf
+  | (p, v) :: rest, root, acc, r', ups, hf, hv, h => by
+    simp only [writeAll] at h
+    cases hp : p.reverse with
+    | nil => simp [hp] at h
+    | cons k revParent =>
+      simp only [hp] at h
+      cases hw : writeReset root (recv ++ revParent.reverse) k (some v) with
+      | none => simp [hw] at h
+      | some r =>
+        obtain ⟨r1, u1⟩ := r
+        have hf1 : Fresh r1 := writeReset_fresh hf (fun nv hnv => by cases hnv; exact hv (p, v) (by simp)) hw
+        have hv' : ∀ pv ∈ rest, Fresh pv.2 := fun pv hm => hv pv (by simp [hm])
+        cases u1 with
+        | none => simp only [hw] at h; exact writeAll_fresh recv rest r1 acc r' ups hf1 hv' h
+        | some u1 => simp only [hw] at h; exact writeAll_fresh recv rest r1 _ r' ups hf1 hv' h
+
+/-- A raw change of the receiver's items followed by the invalidation of its chain. -/
+theorem mapAt_resetChain_fresh (g : T → T) (hleaf : ∀ a, g (.leaf a) = .leaf a)
+    (hg : ∀ m kd items, FreshItems items → ∃ items', g (.node m kd items) = .node m kd items' ∧ FreshItems items') :
+    (p : Path) → (t : T) → Fresh t → Fresh (resetChain (mapAt g t p) p)
+  | [], t, h => by
+    simp only [mapAt, resetChain]
+    cases t with
+    | leaf a => rw [hleaf]; exact h
+    | node m kd items =>
+      simp only [Fresh] at h
+      obtain ⟨items', he, hfi⟩ := hg m kd items h.2
+      rw [he]; simp [resetCache, Fresh, hfi]
+  | k :: rest, .leaf a, h => by simp [mapAt, child, resetChain, resetCache, Fresh]
+  | k :: rest, .node m kd items, h => by
+    simp only [mapAt, child]
+    cases hc : lookup k items with
+    | none => simp only []; exact resetChain_fresh _ _ h
+    | some c =>
+      simp only [Fresh] at h
+      have ih := mapAt_resetChain_fresh g hleaf hg rest c (freshItems_lookup items h.2 hc)
+      simp only [setChild, resetChain, child, lookup_setKv_self, resetCache, setKv_setKv, Fresh]
+      exact ⟨by simp, freshItems_setKv ih items h.2⟩
+
+theorem freshItems_reindex (xs : List (Key × T)) (h : FreshItems xs) : FreshItems (reindex xs) := by
+  rw [freshItems_iff] at h ⊢
+  intro x hx
+  simp only [reindex, List.mem_map] at hx
+  obtain ⟨⟨i, t⟩, hz, rfl⟩ := hx
+  have := (List.of_mem_zip hz).2
+  simp only [List.mem_map] at this
+  obtain ⟨y, hy, rfl⟩ := this
+  exact h y hy
+
+theorem freshItems_reverse (xs : List (Key × T)) (h : FreshItems xs) : FreshItems xs.reverse := by
+  rw [freshItems_iff] at h ⊢
+  intro x hx; exact h x (by simpa using hx)
+
+theorem freshItems_dropLast (xs : List (Key × T)) (h : FreshItems xs) : FreshItems xs.dropLast := by
+  rw [freshItems_iff] at h ⊢
+  intro x hx; exact h x ((List.dropLast_sublist xs).subset hx)
+
+end Pg.C09
